@@ -248,12 +248,20 @@ def r4_label_codec(idx, r):
     r.require(len(set(widths.values())) == 1, "encoder-field-width-constant", enc,
               msg=f"the encoder renders one field per character with width {sorted(set(widths.values()))} over the admissible alphabet (codes {min(map(ord, labels))}..{max(map(ord, labels))}); the decoder cannot split a number whose fields have different widths")
     dec = idx.func(f"{M}.getXSTypeLabelFromNumber")
-    two = next((n for n in walk_local(dec.node) if isinstance(n, ast.If) and isinstance(n.test, ast.Compare) and norm(n.test.left) == "xsTypeNumber" and isinstance(n.test.ops[0], (ast.Gt, ast.GtE))), None)
+    two, thr, strict = None, None, True
+    for n in walk_local(dec.node):
+        if isinstance(n, ast.If) and isinstance(n.test, ast.Compare) and len(n.test.ops) == 1:
+            a, b, op = n.test.left, n.test.comparators[0], n.test.ops[0]
+            if norm(a) == "xsTypeNumber" and isinstance(op, (ast.Gt, ast.GtE)):       # number > T
+                two, thr, strict = n, b, isinstance(op, ast.Gt)
+                break
+            if norm(b) == "xsTypeNumber" and isinstance(op, (ast.Lt, ast.LtE)):       # T < number
+                two, thr, strict = n, a, isinstance(op, ast.Lt)
+                break
     if two is None:
         raise AnalysisError("decoder threshold not found")
-    thr = two.test.comparators[0]
     thrv = ord(thr.args[0].value) if isinstance(thr, ast.Call) and dotted(thr.func) == "ord" else idx.fold(m, thr)
-    if isinstance(two.test.ops[0], ast.GtE):
+    if not strict:
         thrv -= 1  # n >= t  is  n > t - 1
     upper_max = max(ord(c) for c in labels if c.isupper())
     r.require(thrv >= upper_max, "decoder-uppercase-range", dec, node=two.test,
